@@ -416,8 +416,10 @@ class Check:
 
     # -- verdict
     def finish(self, extended_search=None) -> None:
-        if self.broken and not self.failing and extended_search is not None:
-            self.notes.append("proof/correspondence broken: running the extended failing-input search")
+        if (self.broken or self.cov.get("tie_fallback")) and not self.failing and extended_search is not None:
+            self.notes.append("proof/correspondence broken: running the extended failing-input search" if self.broken else
+                              "a doubly tied generated module fell back to its correspondence tie: running the extended "
+                              "failing-input search as well")
             try:
                 extended_search()
             except Exception as ex:  # noqa: BLE001
